@@ -318,6 +318,69 @@ def judge_resolver(res, st, n, perm, mode, twice, tmpdir):
         add_violation(res, f"resolver:order-differs:{mode}" + (":twice" if twice else ""), case, exp, got)
 
 
+def judge_resolver_no_items(res, st, perm, mode, tmpdir):
+    """pipelines WITHOUT transformation items (only post-processing, finalizers, vars): resolving them keeps all of that"""
+    from sigma.collection import SigmaCollection
+    from sigma.processing.resolver import ProcessingPipelineResolver
+    from sigma.processing.pipeline import ProcessingPipeline
+    from sigma.rule import SigmaRule
+
+    defs = {
+        6: {"name": "q6", "priority": 30, "vars": {"u": "six"}, "postprocessing": [{"id": "post6", "type": "embed", "prefix": "[6 ", "suffix": " 6]"}]},
+        7: {"name": "q7", "priority": 20, "vars": {"u": "seven", "w": 7}, "finalizers": [{"type": "concat", "separator": "|", "prefix": "<7 ", "suffix": " 7>"}]},
+        8: {"name": "q8", "priority": 20, "vars": {"x": 8}, "postprocessing": [{"id": "post8", "type": "simple_template", "template": "T8 {query} u={pipeline.vars[u]} T8"}],
+            "finalizers": [{"type": "concat", "separator": "+", "prefix": "<8 ", "suffix": " 8>"}]},
+    }
+    case = {"kind": "resolver-no-items", "perm": list(perm), "mode": mode}
+    res["evaluations"] += 1
+    st.history()
+    st.transition(len(perm))
+    st.state(["resolver-no-items", perm, mode])
+    if mode == "names":
+        resolver = ProcessingPipelineResolver.from_pipeline_list([ProcessingPipeline.from_dict(copy.deepcopy(defs[i])) for i in defs])
+        specs = [defs[i]["name"] for i in perm]
+        key = {i: (defs[i]["priority"], defs[i]["name"]) for i in perm}
+    else:
+        resolver, specs, key = ProcessingPipelineResolver(), [], {}
+        for i in perm:
+            path = os.path.join(tmpdir, f"{'cba'[i - 6]}_noitems{i}.yml")
+            with open(path, "w") as f:
+                yaml.safe_dump(defs[i], f)
+            specs.append(path)
+            key[i] = (defs[i]["priority"], path)
+    order = sorted(perm, key=lambda i: key[i])
+    vars_ = {}
+    for i in order:
+        vars_.update(defs[i]["vars"])
+    q = '`f`="x"'
+    failed = None
+    for i in order:
+        for pp in defs[i].get("postprocessing", []):
+            if pp["type"] == "embed":
+                q = pp["prefix"] + q + pp["suffix"]
+            elif "u" in vars_:
+                q = f"T8 {q} u={vars_['u']} T8"
+            else:
+                failed = ("err", "KeyError")
+    out = [q]
+    for i in order:
+        for f in defs[i].get("finalizers", []):
+            out = f["prefix"] + f["separator"].join(out) + f["suffix"]
+    exp = failed or ("ok", out, sorted(vars_.items()))
+    try:
+        comb = resolver.resolve(specs)
+        b = V.make_backend_class(K, fresh=True)(comb)
+        got_out = b.convert(SigmaCollection([SigmaRule.from_dict({"title": "plain", "logsource": {"category": "c"}, "detection": {"sel": {"f": "x"}, "condition": "sel"}})]))
+        lp = b.last_processing_pipeline
+        got = ("ok", got_out, sorted((k, v) for k, v in lp.vars.items() if not k.startswith("backend") and k != "output_format"))
+    except Exception as e:
+        got = ("err", type(e).__name__)
+    res["nontrivial"].add(h64(case))
+    res["outcomes"].add(h64(str(got)[:80]))
+    if got != exp:
+        add_violation(res, f"resolver:pipelines-without-transformation-items:{mode}", case, exp, got)
+
+
 def judge_backend(res, st, user):
     """backend pipeline, then user's, then output-format pipeline"""
     from sigma.collection import SigmaCollection
@@ -495,6 +558,10 @@ def run_shard(shard, tier, seed):
                     for mode in ("names", "files"):
                         for twice in (False, True):
                             judge_resolver(res, st, n, perm, mode, twice, tmpdir)
+            for m in (1, 2, 3):
+                for perm in itertools.permutations((6, 7, 8), m):
+                    for mode in ("names", "files"):
+                        judge_resolver_no_items(res, st, perm, mode, tmpdir)
             res["samples"].append({"kind": "resolver", "perm": list(range(n, 0, -1)), "mode": "files"})
         finally:
             shutil.rmtree(tmpdir, ignore_errors=True)
